@@ -36,9 +36,10 @@ ASSUMPTIONS = ["LP64, CPython 3.12 configuration (CYTHON_ASSUME_SAFE_MACROS/SIZE
 
 # Model variant describing the tree under test.  Set to 1 when the corresponding
 # proposed_fixes/C15-*.diff has been applied to /repo.
-FX_CROP = 0      # C15-crop_slice_length_overflow.diff
-FX_CLAMP = 0     # C15-typed_slice_object_bound_overflow.diff (none proposed yet)
-FX_DWRAP = 0     # C15-seq_subclass_double_wraparound.diff
+# (The C15_FX_* environment variables override them for trying a patched scratch worktree.)
+FX_CROP = int(os.environ.get("C15_FX_CROP", "0"))      # C15-crop_slice_length_overflow.diff
+FX_CLAMP = int(os.environ.get("C15_FX_CLAMP", "0"))    # typed_slice_object_bound_overflow (no repair proposed)
+FX_DWRAP = int(os.environ.get("C15_FX_DWRAP", "0"))    # C15-seq_subclass_double_wraparound.diff
 
 MAX = 2 ** 63 - 1
 MIN = -2 ** 63
@@ -199,16 +200,22 @@ KB = ("bytes", "bytearray", "obj")
 IT_SMALL = ("ssize", "int", "size")
 C_SMALL = [-1, 0, 3]
 # (module name, directive tag, wraparound, boundscheck, part, kinds, index types, literal indices)
-MODULES = [("c15_tt_a", "tt", True, True, "index", KA, None, None), ("c15_tt_b", "tt", True, True, "index", KB, None, None),
-           ("c15_sl_a", "tt", True, True, "slice", KA, None, None), ("c15_sl_b", "tt", True, True, "slice", KB, None, None),
-           ("c15_ft", "ft", False, True, "index", None, IT_SMALL, C_SMALL),
-           ("c15_tf", "tf", True, False, "index", None, IT_SMALL, C_SMALL),
-           ("c15_ff", "ff", False, False, "index", None, IT_SMALL, C_SMALL)]
+IT_QUICK = ("ssize", "size")
+C_QUICK = [-1, 3]
 
 
-def mod_specs(workdir, only=None):
+def modules(quick):
+    it, cs = (IT_QUICK, C_QUICK) if quick else (IT_SMALL, C_SMALL)
+    return [("c15_tt_a", "tt", True, True, "index", KA, None, None), ("c15_tt_b", "tt", True, True, "index", KB, None, None),
+            ("c15_sl_a", "tt", True, True, "slice", KA, None, None), ("c15_sl_b", "tt", True, True, "slice", KB, None, None),
+            ("c15_ft", "ft", False, True, "index", None, it, cs),
+            ("c15_tf", "tf", True, False, "index", None, it, cs),
+            ("c15_ff", "ff", False, False, "index", None, it, cs)]
+
+
+def mod_specs(workdir, quick, only=None):
     return [dict(name=m[0], source=gen_source(m[2], m[3], m[4], m[5], m[6], m[7]), workdir=workdir)
-            for m in MODULES if only is None or m[0] == only]
+            for m in modules(quick) if only is None or m[0] == only]
 
 
 def index_module(dn, kn):
@@ -391,13 +398,14 @@ def defined_for(wa, bc, n, i):
 
 
 def slice_vals(quick):
-    ext = [MIN, MIN + 1, MIN + 3, MIN + 9, MAX - 9, MAX - 3, MAX - 1, MAX]
+    ext = [MIN, MIN + 3, MAX - 3, MAX] if quick else [MIN, MIN + 1, MIN + 3, MIN + 9, MAX - 9, MAX - 3, MAX - 1, MAX]
     return list(range(-10, 11)) + ext
 
 
 def run(ctx):
     quick = ctx.tier == "quick"
-    specs = mod_specs(ctx.workdir)
+    specs = mod_specs(ctx.workdir, quick)
+    it_small, c_small = (IT_QUICK, C_QUICK) if quick else (IT_SMALL, C_SMALL)
     import time
     t0 = time.time()
     built = cybuild.build_many(specs, jobs=7)
@@ -408,7 +416,7 @@ def run(ctx):
             return
     model = ctx.model("index")
     NS = list(range(9))
-    setup = SETUP + "\nimport %s\n" % ", ".join(m[0] for m in MODULES)
+    setup = SETUP + "\nimport %s\n" % ", ".join(m[0] for m in modules(quick))
     jobs = []     # (call, entries)  entry = dict(input, model_query|None, expect, stratum, klass, sig)
 
     def conts_expr(kind):
@@ -425,7 +433,7 @@ def run(ctx):
             for rk in rkinds:
                 cs = [mk(rk, n) for n in NS]
                 for tn, td, tw, ts in ITYPES + [("obj", None, 0, True)]:
-                    if dn != "tt" and tn not in IT_SMALL:
+                    if dn != "tt" and tn not in it_small and tn != "obj":
                         continue
                     for op in ("get", "set", "del"):
                         if op != "get" and kn == "bytes":
@@ -473,7 +481,7 @@ def run(ctx):
                                     klass=classify_index(kn, op, tn, n, i, None, rk, wa and ts), sig=(mod, op, kn, rk, tn, n, repr(iraw))))
                         jobs.append((["sweep_get" if op == "get" else "sweep_mut", args], entries))
                 # literal constant indices
-                for k in (CONSTS if dn == "tt" else C_SMALL):
+                for k in (CONSTS if dn == "tt" else c_small):
                     if k < 0 and not wa:
                         continue
                     cn = ("m%d" % -k) if k < 0 else str(k)
@@ -667,14 +675,15 @@ def run(ctx):
     ctx.extra.setdefault("exhaustive_domains", []).append(
         "lengths 0..8 x indices [-10,10] + index-type bounds, per (base type, index type, get/set/del, directives)")
     ctx.extra["exhaustive_domains"].append(
-        "lengths 0..8 x (start, stop) in ([-10,10] + 8 Py_ssize_t extremes)^2 for typed cc/oo slice shapes")
+        "lengths 0..8 x (start, stop) in ([-10,10] + %d Py_ssize_t extremes)^2 for typed cc/oo slice shapes"
+        % (len(svals) - 21))
     ctx.extra["model_flags"] = {"FX_CROP": FX_CROP, "FX_CLAMP": FX_CLAMP, "FX_DWRAP": FX_DWRAP}
 
 
 def replay(ctx, obj):
     inp = obj["input"]
     mod = inp.get("module", "c15_tt_a")
-    cybuild.build_many(mod_specs(ctx.workdir, only=mod), jobs=2)
+    cybuild.build_many(mod_specs(ctx.workdir, False, only=mod), jobs=2)
     rk, n, op, kn = inp["runtime"], inp["n"], inp["op"], inp["base"]
     cexpr = {"py": "conts(%r, [%d])" % (rk, n)}
     if op in ("slice", "setslice", "delslice"):
